@@ -83,6 +83,12 @@ RecConds == {Node("LESSER", <<Node("CARD", <<La>>), IntLit(2)>>), Node("EQUAL", 
 SeedRec == {Node("REC_SHORT", <<La, i, b>>) : i \in D0, b \in RecBodies}
       \cup {Node("REC_FULL", <<La, i, cnd, b>>) : i \in {Glob("X1"), Empty, IntLit(1), Glob("S2")}, cnd \in RecConds, b \in RecBodies}
       \cup {Node("REC_SHORT", <<TupAB, i, b>>) : i \in {Node("TUPLE", <<Glob("X1"), IntLit(1)>>), Glob("S1")}, b \in {Node("TUPLE", <<La, Lb>>), Node("TUPLE", <<La, Node("PLUS", <<Lb, IntLit(1)>>)>>), La}}
+      \* empty-set components whose type is deduced only after several rounds (each round fixes one more component)
+      \cup {Node("REC_SHORT", <<Node("TUPLEDECL", <<La, Lb, Lc>>), Node("TUPLE", <<x, y, Glob("X1")>>), b>>) :
+               x \in {Empty, Glob("X1")}, y \in {Empty, Glob("S2")},
+               b \in {Node("TUPLE", <<Lb, Lc, Lc>>), Node("TUPLE", <<La, Lb, Lc>>), Node("TUPLE", <<Lc, La, Lc>>), Node("TUPLE", <<Lb, La, Lc>>)}}
+      \cup {Node("EQUAL", <<Node("REC_SHORT", <<TupAB, Node("TUPLE", <<Empty, Glob("X1")>>), Node("TUPLE", <<Lb, Lb>>)>>), x>>) :
+               x \in {Node("TUPLE", <<Glob("X1"), Glob("X1")>>), Node("TUPLE", <<Glob("S1"), Glob("X1")>>), Node("TUPLE", <<Empty, Glob("X1")>>)}}
 It(d, s) == Node("ITERATE", <<d, s>>)
 As(d, x) == Node("ASSIGN", <<d, x>>)
 SeedImp == {Node("IMPERATIVE", <<La, It(La, d)>>) : d \in Doms}
@@ -171,7 +177,7 @@ FuncBodiesA == {Node("UNION", <<La, Glob("X1")>>), Node("ENUM", <<La>>), La, Nod
                 Node("DECLARATIVE", <<Lb, La, Node("NOTEQUAL", <<Lb, Lb>>)>>), Node("UNION", <<La, BX1>>)}
 FuncBodiesAB == {Node("UNION", <<La, Node("ENUM", <<Lb>>)>>), Node("IN", <<Lb, La>>), Node("TUPLE", <<La, Lb>>), Node("EQUAL", <<La, Lb>>), Node("UNION", <<La, Lb>>)}
 SeedFunc == {FDef(<<Arg("a", d)>>, b) : d \in {Glob("X1"), BX1, X1xX1, Glob("S1"), Node("BOOLEAN", <<Rad("R1")>>), IntLit(1), Glob("D7")}, b \in FuncBodiesA}
-       \cup {FDef(<<Arg("a", d1), Arg("b", d2)>>, b) : d1 \in {BX1, Node("BOOLEAN", <<Rad("R1")>>), Glob("S2")}, d2 \in {Glob("X1"), La, Rad("R1"), BX1}, b \in FuncBodiesAB}
+       \cup {FDef(<<Arg("a", d1), Arg("b", d2)>>, b) : d1 \in {BX1, Node("BOOLEAN", <<Rad("R1")>>), Glob("S2")}, d2 \in {Glob("X1"), La, Rad("R1"), BX1, Glob("D7"), IntLit(1)}, b \in FuncBodiesAB}
        \cup {FDef(<<Arg("a", BX1), Arg("a", Glob("X1"))>>, La), FDef(<<Arg("a", BX1)>>, Node("FORALL", <<La, Glob("X1"), Node("EQUAL", <<La, La>>)>>))}
 Seeds == UNION {SeedFilter, SeedRec, SeedImp, SeedBind, SeedCall, SeedScope, SeedAxiom, SeedLazy, SeedNested, SeedNested2, SeedSibling, SeedFunc}
 
